@@ -6,6 +6,7 @@
 #include <algorithm>
 #include <array>
 #include <cstdint>
+#include <cstdio>
 #include <cstring>
 #include <deque>
 #include <iterator>
@@ -48,6 +49,20 @@ struct ToInt
     operator int32_t() const { return v + 7; }
 };
 static_assert(std::is_trivially_copyable_v<ToInt> && sizeof(ToInt) == sizeof(int32_t));
+
+// pointer conversion that adjusts the address: Derived* -> second base*
+struct Base1
+{
+    int64_t a{1};
+};
+struct Base2
+{
+    int64_t b{2};
+};
+struct Derived : Base1, Base2
+{
+};
+inline Derived g_derived_pool[16];
 
 // counts how often each object was copied / moved from
 struct Counted
@@ -109,6 +124,8 @@ S make_src(int k)
         return std::string(literal(k)) + std::to_string(k);
     else if constexpr (std::is_same_v<S, ToInt>)
         return ToInt{k};
+    else if constexpr (std::is_same_v<S, Derived*>)
+        return (k % 5 == 0) ? nullptr : &g_derived_pool[k % 16];
     else if constexpr (std::is_same_v<S, Counted>)
         return Counted(k);
     else if constexpr (std::is_same_v<S, MoveOnly>)
@@ -139,6 +156,12 @@ std::string show(const T& v)
         return "{" + std::to_string(v.key) + "}";
     else if constexpr (std::is_enum_v<T>)
         return std::to_string(static_cast<long long>(v));
+    else if constexpr (std::is_pointer_v<T>)
+    {
+        char buf[32];
+        std::snprintf(buf, sizeof buf, "%p", static_cast<const void*>(v));
+        return buf;
+    }
     else if constexpr (std::is_same_v<T, bool>)
     {
         unsigned char raw;
@@ -254,6 +277,7 @@ enum Form
     F_MOVE_ITERATOR_POINTER,
     F_MOVE_ITERATOR_LIST,
     F_REVERSE_ITERATOR,  // std::reverse_iterator<vector::iterator>: random access, lvalue reference, but not contiguous in memory order
+    F_DEQUE_CONST_ITERATOR,
     F_COUNT_
 };
 
@@ -261,7 +285,7 @@ inline const char* form_name(int f)
 {
     static const char* n[] = {"vector&", "const vector&", "vector&&", "list&", "list&&", "deque&", "std::array&", "C array", "lazy generated range",
                               "pointer", "vector::iterator", "vector::const_iterator", "list::iterator", "deque::iterator", "counting input iterator",
-                              "move_iterator<vector::iterator>", "move_iterator<pointer>", "move_iterator<list::iterator>", "reverse_iterator<vector::iterator>"};
+                              "move_iterator<vector::iterator>", "move_iterator<pointer>", "move_iterator<list::iterator>", "reverse_iterator<vector::iterator>", "deque::const_iterator"};
     return n[f];
 }
 constexpr bool is_iterator_form(int f) { return f >= F_POINTER; }
@@ -355,7 +379,7 @@ Outcome run_cell(std::vector<int> keys)
                 s.moved_from = 0;
             }
     }
-    if constexpr (F == F_DEQUE_LVALUE || F == F_DEQUE_ITERATOR)
+    if constexpr (F == F_DEQUE_LVALUE || F == F_DEQUE_ITERATOR || F == F_DEQUE_CONST_ITERATOR)
     {
         // start the range two items in front of the end of a deque chunk (512 bytes in libstdc++), so that a source
         // of three or more items is not contiguous in memory
@@ -423,6 +447,8 @@ Outcome run_cell(std::vector<int> keys)
         VO::emplace(v, n, std::make_move_iterator(lst.begin()));
     else if constexpr (F == F_REVERSE_ITERATOR)
         VO::emplace(v, n, src.rbegin());
+    else if constexpr (F == F_DEQUE_CONST_ITERATOR)
+        VO::emplace(v, n, deq.cbegin());
     // ---------------------------------------------------------------------------------------------------------
 
     auto fail = [&](const std::string& m)
@@ -483,7 +509,7 @@ Outcome run_cell(std::vector<int> keys)
             };
             if constexpr (F == F_LIST_LVALUE || F == F_LIST_ITERATOR)
                 check_src(lst);
-            else if constexpr (F == F_DEQUE_LVALUE || F == F_DEQUE_ITERATOR)
+            else if constexpr (F == F_DEQUE_LVALUE || F == F_DEQUE_ITERATOR || F == F_DEQUE_CONST_ITERATOR)
                 check_src(deq);
             else if constexpr (F == F_ARRAY_LVALUE)
                 check_src(arr);
